@@ -169,7 +169,8 @@ Qed.
 
 (* ---- executable protocol model with checked guards (tests, see the Examples) ------------------------------ *)
 Inductive visit :=
-| Walk (cb : bool) (target my_child other_parent other_item other_rank : Z)   (* cb: the walk of async_union_and_execute *)
+| Walk (cb : option (Z * Z)) (target my_child other_parent other_item other_rank : Z)
+    (* cb = Some (a, b): the walk of async_union_and_execute(a, b, fn): fn(a, b) runs where the walk attaches a root *)
 | UpdParent (target new_parent : Z)
 | Resolve (target merging_item merging_rank : Z).
 
@@ -196,7 +197,7 @@ Definition exec (t : table) (v : visit) : option (table * list visit) :=
           else if orank <? my_rank then Some (t, s0 ++ [Walk cb op oi my_parent me my_rank])
           else if my_rank =? orank then
             if my_parent =? me then
-              if me <? op then match guarded_set t me op with Some t' => Some (t', s0 ++ (if cb then [] else [Resolve op me my_rank])) | None => None end
+              if me <? op then match guarded_set t me op with Some t' => Some (t', s0 ++ (match cb with Some _ => [] | None => [Resolve op me my_rank] end)) | None => None end
               else Some (t, s0 ++ [Walk cb op oi my_parent me my_rank])
             else Some (t, s0 ++ [Walk cb my_parent me op oi orank])
           else
@@ -239,7 +240,7 @@ Fixpoint run_pool (fuel : nat) (pick : nat -> nat -> nat) (t : table) (pool : li
   end.
 
 (* the initial visits: (cb, (a, b)) is async_union(a, b) or, with cb, async_union_and_execute(a, b, ...) *)
-Definition unionsb (l : list (bool * (Z * Z))) : list visit := map (fun '(cb, (a, b)) => Walk cb a a b b (-1)) l.
+Definition unionsb (l : list (bool * (Z * Z))) : list visit := map (fun '(cb, (a, b)) => Walk (if cb : bool then Some (a, b) else None) a a b b (-1)) l.
 Definition unions (es : list (Z * Z)) : list visit := unionsb (map (pair false) es).
 Definition root_of (t : table) (x : Z) : option Z := find (S (length t)) t x.
 Fixpoint inv_b (t all : table) : bool :=
